@@ -1369,8 +1369,12 @@ def jobs_for(tier, seed):
     else:
         n_dir, n_rand = 42 * 6, 60000
     jobs = [("directed", seed, i) for i in range(n_dir)]
-    jobs += [("random", seed, i) for i in range(n_rand)]
-    return jobs
+    rand = [("random", seed, i) for i in range(n_rand)]
+    if tier == "quick":
+        # longest histories first, so that no marathon starts last (pure
+        # generation: no library code is touched)
+        rand.sort(key=lambda job: -len(make_trace(job)["steps"]))
+    return jobs + rand
 
 
 RULE = (
